@@ -454,7 +454,13 @@ func (b *BlockWise[C]) createSendingMessage(sendingMessage *pool.Message, maxSZX
 		// For block1, block is the block that was acknowledged: we need to skip the already sent bytes.
 		off += newBufLen
 	}
-	offSeek, err := sendingMessage.Body().Seek(off, io.SeekStart)
+	body := sendingMessage.Body()
+	if body == nil {
+		// a message without body (e.g. a pending GET) has no block to send
+		b.cc.ReleaseMessage(sendMessage)
+		return nil, false, errors.New("cannot create block of a message without body")
+	}
+	offSeek, err := body.Seek(off, io.SeekStart)
 	if err != nil {
 		b.cc.ReleaseMessage(sendMessage)
 		return nil, false, fmt.Errorf("cannot seek in response: %w", err)
